@@ -27,19 +27,19 @@ attribute [local instance] Ev.Num.floorTrunc
 /-- **C01 (the reduced objective is Hölder up to the resolution)**: for `f` `L`-Lipschitz on the
 cube and all `x', x'' ∈ [0,1]`:
 `|f(y x') - f(y x'')| ≤ 2·L·√(n+3)·|x' - x''|^(1/n) + L·√(n+3)·2^-m`. -/
-theorem C01_reduced_holder {n : Nat} (hn : 2 ≤ n ∧ n ≤ 5) (m : Nat) {f : List ℝ → ℝ} {L : ℝ}
+theorem C01_reduced_holder {n : Nat} (hn : Ev.DimOK n) (m : Nat) {f : List ℝ → ℝ} {L : ℝ}
     (hf : LipCube n f L) {x' x'' : ℝ} (h0' : 0 ≤ x') (h1' : x' ≤ 1) (h0'' : 0 ≤ x'')
     (h1'' : x'' ≤ 1) :
     |f (imageCube n m x') - f (imageCube n m x'')| ≤
       2 * L * Real.sqrt (n + 3) * |x' - x''| ^ (1 / (n:ℝ)) + gridSlack n m L :=
   lip_along_curve hn m hf h0' h1' h0'' h1'' (rpow_inv_nonneg n (abs_nonneg _))
-    (le_of_eq (rpow_inv_pow (by omega) (abs_nonneg _)).symm)
+    (le_of_eq (rpow_inv_pow hn.ne_zero (abs_nonneg _)).symm)
 
 /-- **C01 (minorant on one interval)**: let `0 ≤ x_l ≤ x ≤ x_r ≤ 1`, `δ = (x_r - x_l)^(1/n)` the
 Hölder length of the interval and `K_n·L ≤ M`. Then
 `F x ≥ (F x_l + F x_r)/2 - (M/4)·δ - g`, `F x ≥ F x_l - (M/2)·δ - g`, `F x ≥ F x_r - (M/2)·δ - g`
 with `g = L·√(n+3)·2^-m`. -/
-theorem C01_minorant_interval {n : Nat} (hn : 2 ≤ n ∧ n ≤ 5) (m : Nat) {f : List ℝ → ℝ} {L : ℝ}
+theorem C01_minorant_interval {n : Nat} (hn : Ev.DimOK n) (m : Nat) {f : List ℝ → ℝ} {L : ℝ}
     (hf : LipCube n f L) {xl xr x M : ℝ} (hl0 : 0 ≤ xl) (hr1 : xr ≤ 1) (hlx : xl ≤ x)
     (hxr : x ≤ xr) (hM : Kn n * L ≤ M) :
     (f (imageCube n m xl) + f (imageCube n m xr)) / 2 - (M / 4) * (xr - xl) ^ (1 / (n:ℝ))
@@ -50,7 +50,7 @@ theorem C01_minorant_interval {n : Nat} (hn : 2 ≤ n ∧ n ≤ 5) (m : Nat) {f 
         ≤ f (imageCube n m x) := by
   have hd : 0 ≤ xr - xl := by linarith
   have hδ := rpow_inv_nonneg n hd
-  have hδn := rpow_inv_pow (n := n) (by omega) hd
+  have hδn := rpow_inv_pow (n := n) hn.ne_zero hd
   exact ⟨minorant_interior hn m hf hl0 hr1 hlx hxr hδ hδn hM,
     minorant_left hn m hf hl0 hr1 hlx hxr hδ hδn hM,
     minorant_right hn m hf hl0 hr1 hlx hxr hδ hδn hM⟩
@@ -58,12 +58,12 @@ theorem C01_minorant_interval {n : Nat} (hn : 2 ≤ n ∧ n ≤ 5) (m : Nat) {f 
 /-- **C01 (curve versus cube)**: every cube point `q` is within half a cell diagonal
 `√n·2^-(m+1)` of a curve point, so `f q ≥ F x - L·√n·2^-(m+1)` for some `x ∈ [0,1)`
 (namely `x = __GetXonY q`). -/
-theorem C01_curve_vs_box {n : Nat} (hn : 2 ≤ n ∧ n ≤ 5) (m : Nat) {f : List ℝ → ℝ} {L : ℝ}
+theorem C01_curve_vs_box {n : Nat} (hn : Ev.DimOK n) (m : Nat) {f : List ℝ → ℝ} {L : ℝ}
     (hf : LipCube n f L) {q : List ℝ} (hq : InCube n q) :
     ∃ x : ℝ, 0 ≤ x ∧ x < 1 ∧ f (imageCube n m x) - L * (Real.sqrt n / 2^(m+1)) ≤ f q := by
   obtain ⟨x, h0, h1, hd⟩ := exists_curve_point_near hn m hq
   refine ⟨x, h0, h1, ?_⟩
-  have hL := hf.nonneg (by omega : 0 < n)
+  have hL := hf.nonneg hn.pos
   have h2 := hf _ _ hq (imageCube_inCube hn m x)
   have h3 : L * dist2 q (imageCube n m x) ≤ L * (Real.sqrt n / 2^(m+1)) :=
     mul_le_mul_of_nonneg_left hd hL
@@ -73,7 +73,7 @@ theorem C01_curve_vs_box {n : Nat} (hn : 2 ≤ n ∧ n ≤ 5) (m : Nat) {f : Lis
 /-- **C01 (curve versus cube, minimum form)**: a lower bound `c` of the reduced objective on `[0,1]`
 gives the lower bound `c - L·2^-m·√n/2` of `f` on the whole cube:
 `min_cube f ≥ min_{x ∈ [0,1]} F x - L·2^-m·√n/2`. -/
-theorem C01_curve_vs_box_min {n : Nat} (hn : 2 ≤ n ∧ n ≤ 5) (m : Nat) {f : List ℝ → ℝ} {L : ℝ}
+theorem C01_curve_vs_box_min {n : Nat} (hn : Ev.DimOK n) (m : Nat) {f : List ℝ → ℝ} {L : ℝ}
     (hf : LipCube n f L) {c : ℝ} (hc : ∀ x : ℝ, 0 ≤ x → x ≤ 1 → c ≤ f (imageCube n m x))
     {q : List ℝ} (hq : InCube n q) : c - L * (1 / 2^m) * Real.sqrt n / 2 ≤ f q := by
   obtain ⟨x, h0, h1, h⟩ := C01_curve_vs_box hn m hf hq
@@ -97,9 +97,9 @@ theorem C01_lip_normalised {n : Nat} {lower upper : List ℝ} (hl : lower.length
 /-- non-vacuity of the `Ev.C01_*` statements: `n = 2`, `m = 3`, the objective `f q = q₀` is
 `1`-Lipschitz on the cube; the interval `[1/4, 3/4] ∋ 1/2`, `M = 18 ≥ K_2`; the cube point
 `(1/5, -1/3)`. -/
-example : (2 ≤ 2 ∧ 2 ≤ 5) ∧ LipCube 2 (fun q => getR q 0) 1 ∧ (0:ℝ) ≤ 1/4 ∧ (3/4:ℝ) ≤ 1 ∧
+example : (Ev.DimOK 2) ∧ LipCube 2 (fun q => getR q 0) 1 ∧ (0:ℝ) ≤ 1/4 ∧ (3/4:ℝ) ≤ 1 ∧
     (1/4:ℝ) ≤ 1/2 ∧ (1/2:ℝ) ≤ 3/4 ∧ Kn 2 * 1 ≤ 18 ∧ InCube 2 [1/5, -1/3] := by
-  refine ⟨⟨le_refl _, by omega⟩, lipCube_coord (by omega), by norm_num, by norm_num, by norm_num,
+  refine ⟨by decide, lipCube_coord (by omega), by norm_num, by norm_num, by norm_num,
     by norm_num, ?_, ⟨rfl, ?_⟩⟩
   · exact Kn_two_le
   · intro v hv
@@ -121,13 +121,13 @@ variable [Fns ℝ] {p : Params ℝ} {s : State ℝ} {pr : Prep ℝ}
 `p.n ∈ {2,…,5}`, let `f` be `L`-Lipschitz on the cube, let every evaluated item carry
 `z = f (y x)`, and let the reliability condition `K_n·L ≤ r·M` hold. Then the hypothesis
 `Minorant` of `C01_cert_step_modMinorant` holds for `F = f ∘ y` with slack `g = L·√(n+3)·2^-m`. -/
-theorem C01_minorant_evolvent (hL : FnsLaws ℝ) (hn : 2 ≤ p.n ∧ p.n ≤ 5) (h : Inv p s) (m : Nat)
+theorem C01_minorant_evolvent (hL : FnsLaws ℝ) (hn : Ev.DimOK p.n) (h : Inv p s) (m : Nat)
     (f : List ℝ → ℝ) (L : ℝ) (hf : LipCube p.n f L)
     (hF : ∀ it ∈ s.items, it.ev = true → it.z = f (imageCube p.n m it.x))
     (hrel : Kn p.n * L ≤ p.r * s.M) :
     Minorant p s (fun x => f (imageCube p.n m x)) (gridSlack p.n m L) := by
   have hI := h.toInvItems
-  have hn0 : 0 < p.n := by omega
+  have hn0 : 0 < p.n := hn.pos
   intro a b hab x hax hxb
   have hra := hI.x_range a hab.mem_left
   have hrb := hI.x_range b hab.mem_right
@@ -159,7 +159,7 @@ iteration) and let the reliability condition `K_n·L ≤ r·M`, `K_n = 2^(3-1/n)
 estimate `M = s.M` used in that selection. Then after the trial (whatever value it returns) the
 best value exceeds `f q` at EVERY point `q` of the cube by less than
 `(r M/2)·eps + L·2^-m·(√(n+3) + √n/2)`; and `M` does not decrease. -/
-theorem C01_cert_step_dimN (hL : FnsLaws ℝ) (hr : 1 < p.r) (hn : 2 ≤ p.n ∧ p.n ≤ 5) (h : Inv p s)
+theorem C01_cert_step_dimN (hL : FnsLaws ℝ) (hr : 1 < p.r) (hn : Ev.DimOK p.n) (h : Inv p s)
     (m : Nat) (f : List ℝ → ℝ) (L : ℝ) (hf : LipCube p.n f L)
     (hF : ∀ it ∈ s.items, it.ev = true → it.z = f (imageCube p.n m it.x))
     (hp : prepare p s = .ok pr) (heps : pr.old.delta < p.eps)
@@ -167,7 +167,7 @@ theorem C01_cert_step_dimN (hL : FnsLaws ℝ) (hr : 1 < p.r) (hn : 2 ≤ p.n ∧
     (∀ q, InCube p.n q → (commit p pr z).Z - f q <
       (p.r * s.M / 2) * p.eps + L * (1 / 2^m) * (Real.sqrt (p.n + 3) + Real.sqrt p.n / 2)) ∧
     s.M ≤ (commit p pr z).M := by
-  have hn0 : 0 < p.n := by omega
+  have hn0 : 0 < p.n := hn.pos
   obtain ⟨h1, h2⟩ := C01_cert_step_modMinorant hL hr hn0 h (fun x => f (imageCube p.n m x)) hp heps
     (gridSlack p.n m L) (C01_minorant_evolvent hL hn h m f L hf hF hrel) z
   refine ⟨?_, h2⟩
@@ -182,7 +182,7 @@ theorem C01_cert_step_dimN (hL : FnsLaws ℝ) (hr : 1 < p.r) (hn : 2 ≤ p.n ∧
 
 /-- **C01 for `N ∈ {2,…,5}`, flat objectives need no reliability hypothesis.** If `K_n·L ≤ r` the
 bound holds unconditionally (since `1 ≤ M`). -/
-theorem C01_flat_dimN (hL : FnsLaws ℝ) (hr : 1 < p.r) (hn : 2 ≤ p.n ∧ p.n ≤ 5) (h : Inv p s)
+theorem C01_flat_dimN (hL : FnsLaws ℝ) (hr : 1 < p.r) (hn : Ev.DimOK p.n) (h : Inv p s)
     (m : Nat) (f : List ℝ → ℝ) (L : ℝ) (hf : LipCube p.n f L)
     (hF : ∀ it ∈ s.items, it.ev = true → it.z = f (imageCube p.n m it.x))
     (hp : prepare p s = .ok pr) (heps : pr.old.delta < p.eps)
@@ -198,7 +198,7 @@ theorem C01_flat_dimN (hL : FnsLaws ℝ) (hr : 1 < p.r) (hn : 2 ≤ p.n ∧ p.n 
 `fb` on the box `[lower, upper]` (`lower_i < upper_i`) evaluated at `GetImage x`; `L` is the Lipschitz
 constant of the objective on the box normalised to unit side (`fb ∘ __TransformP2D` on the cube).
 The bound holds at every point `b` of the box. -/
-theorem C01_cert_step_box (hL : FnsLaws ℝ) (hr : 1 < p.r) (hn : 2 ≤ p.n ∧ p.n ≤ 5) (h : Inv p s)
+theorem C01_cert_step_box (hL : FnsLaws ℝ) (hr : 1 < p.r) (hn : Ev.DimOK p.n) (h : Inv p s)
     (m : Nat) (lower upper : List ℝ) (hl : lower.length = p.n) (hu : upper.length = p.n)
     (hlt : ∀ i (h1 : i < lower.length) (h2 : i < upper.length), lower[i] < upper[i])
     (fb : List ℝ → ℝ) (L : ℝ) (hf : LipCube p.n (fun y => fb (p2d lower upper y)) L)
@@ -234,7 +234,7 @@ attribute [local instance] Fns.real
 
 example : ∃ (p : Params ℝ) (s : State ℝ) (log : List (List ℝ × ℝ)) (pr : Prep ℝ) (m : Nat)
     (f : List ℝ → ℝ) (L : ℝ),
-    FnsLaws ℝ ∧ 1 < p.r ∧ (2 ≤ p.n ∧ p.n ≤ 5) ∧ Reach p s log ∧ log.length = 4 ∧ Inv p s ∧
+    FnsLaws ℝ ∧ 1 < p.r ∧ (Ev.DimOK p.n) ∧ Reach p s log ∧ log.length = 4 ∧ Inv p s ∧
     LipCube p.n f L ∧ 0 < L ∧
     (∀ it ∈ s.items, it.ev = true → it.z = f (imageCube p.n m it.x)) ∧
     prepare p s = .ok pr ∧ pr.old.delta < p.eps ∧ Kn p.n * L ≤ p.r * s.M ∧ Kn p.n * L ≤ p.r ∧
@@ -244,7 +244,7 @@ example : ∃ (p : Params ℝ) (s : State ℝ) (log : List (List ℝ × ℝ)) (p
   let f : List ℝ → ℝ := fun q => getR q 0
   have hr : (1 : ℝ) < p.r := by norm_num [p]
   have hn : 0 < p.n := by norm_num [p]
-  have hn2 : 2 ≤ p.n ∧ p.n ≤ 5 := ⟨le_refl _, by norm_num [p]⟩
+  have hn2 : Ev.DimOK p.n := by show Ev.DimOK 2; decide
   obtain ⟨s, log, hre, hlen, hlog⟩ := exists_reach_obj (p := p) FnsLaws.real hr hn f 3
   have hI := hre.inv FnsLaws.real hr hn
   obtain ⟨pr, hp, hs⟩ := prepare_spec FnsLaws.real hr hn hI
